@@ -16,7 +16,7 @@ Section StepM.
   Let HQ := quorums_intersect_one' cfg HVn.
 
   Theorem cinv_propose g C LL A V i ty data fs g' : cinv cfg Ps g C LL A V -> ty <> LogConfiguration ->
-    cstep false [cfg] g (CBase (LPropose i ty data fs)) = Some g' -> exists C' A', cinv cfg Ps g' C' LL A' V.
+    cstep false [cfg] g (CBase (LPropose i ty data fs)) = Some g' -> exists Cn An, cinv cfg Ps g' (Cn ++ C) LL (An ++ A) V.
   Proof.
     intros HI Hty Hstep. apply cstep_base_inv in Hstep. destruct Hstep as (_ & l' & Hl & ->).
     pose proof (cv_l cfg Ps g C LL A V HI) as Hlinv. pose proof (cv_ci cfg Ps g C LL A V HI) as Hci. pose proof (ci_ok C LL Hci) as HC.
@@ -44,7 +44,7 @@ Section StepM.
     2:{ intros s' _ _. rewrite Hr. exact Hrole. }
     destruct Hcase as [(Hfail & Hk & Hrf)|(Hok & Dl & Dci & Dct & Dr)].
     - (* StoreLogs failed *)
-      exists C, A. destruct Hcm as [[_ Ecm]|[Hc _]]; [|congruence].
+      exists [], []. cbn [app]. destruct Hcm as [[_ Ecm]|[Hc _]]; [|congruence].
       apply (cinv_leader_quits cfg Ps HVn g C LL A V i n s s2 _ _ HI Hf Hr Hrole Dd Dv Hk); [|exact Hrf|].
       + destruct Hk as (K1 & _ & K3 & _). repeat split; assumption.
       + intros i' Hne. apply find_lead_set_other, Hne.
@@ -66,7 +66,7 @@ Section StepM.
         exfalso. unfold topk in E. inversion E. lia. }
       destruct Hck as [Hck Hckt].
       pose proof (ci_ok _ _ (chain_inv_propose C LL e (topk s) (v_term s) (gn_id n) tl Hci (li_chain [cfg] _ _ Hl') L1 He2 Hck Hckt L3)) as HC'.
-      exists ((e, topk s) :: C), ((i, key e) :: A).
+      exists [(e, topk s)], [(i, key e)].
       set (n' := mkGN (gn_P n) (Up s2) (keep_sess (Up s2) (gn_sess n)) (gn_next n)).
       assert (Hs' : gn_sess n' = None) by (unfold n'; cbn [gn_sess]; rewrite Lk2; reflexivity).
       assert (Hnl2 : nlog_up ((e, topk s) :: C) s2).
